@@ -39,6 +39,10 @@ def make_config(module_name: str, out_dir: str, *, seed: int = 1, algorithm=None
     cfg.statistics_output.report_dir = out_dir
     cfg.stopping.maximum_memory = -1
     cfg.use_master_worker = False
+    # never let the module analysis switch the run to the (real, unsimulated) subprocess executor behind our back;
+    # the subprocess executor is exercised on its own simulated transport by C31
+    cfg.subprocess_if_recommended = False
+    cfg.subprocess = False
     cfg.test_case_output.format_with_black = False
     for sec, fields in sections.items():
         target = cfg if sec == "top" else getattr(cfg, sec)
